@@ -74,6 +74,7 @@ package base
 
 //@ func (*BaseUndoLogManager).Undo
 //@   prop C10 C01
+//@   modifies ghost.all, heap.all
 //@   requires db != nil && ghost.utx == 0 && !ghost.step_failed && ghost.execs == 0
 //@   ensures one-outcome: ghost.utx != 1
 //@   ensures truthful: result == nil ==> ghost.utx == 2 || (ghost.utx == 3 && ghost.execs == 0)
@@ -88,3 +89,44 @@ package base
 //@   loop 1 invariant tx-open: ghost.utx == 1 && ghost.conns_out == old(ghost.conns_out) + 1 && conn != nil && tx != nil && !ghost.step_failed
 //@   loop 2 invariant tx-open: ghost.utx == 1 && ghost.conns_out == old(ghost.conns_out) + 1 && conn != nil && tx != nil && !ghost.step_failed
 //@   loop 3 invariant tx-open: ghost.utx == 1 && ghost.conns_out == old(ghost.conns_out) + 1 && conn != nil && tx != nil && !ghost.step_failed
+
+// ---------------------------------------------------------------------------------------------
+// C02: writing the undo log in phase one (driver-level connection of the business transaction).
+// Every driver call may fail (ghost.dstep_failed records that one did).
+//@ ghost var dstep_failed bool
+//@ ghost var dexecs int
+//@ iface (driver.Conn).Prepare
+//@   modifies ghost.dstep_failed
+//@   ensures ghost.dstep_failed == (old(ghost.dstep_failed) || result1 != nil) && (result1 == nil ==> result0 != nil)
+//@ iface (driver.Stmt).Exec
+//@   modifies ghost.dstep_failed, ghost.dexecs
+//@   ensures ghost.dstep_failed == (old(ghost.dstep_failed) || result1 != nil) && ghost.dexecs == old(ghost.dexecs) + 1
+//@ func (*BaseUndoLogManager).serializeBranchUndoLog
+//@   trusted
+//@   modifies ghost.dstep_failed
+//@   ensures ghost.dstep_failed == (old(ghost.dstep_failed) || result1 != nil)
+//@ func (*BaseUndoLogManager).encodeUndoLogCtx
+//@   trusted
+//@   ensures true
+
+//@ func (*BaseUndoLogManager).InsertUndoLog
+//@   prop C02
+//@   requires conn != nil
+//@   modifies ghost.dstep_failed, ghost.dexecs
+//@   ensures propagates: ghost.dstep_failed == (old(ghost.dstep_failed) || result != nil)
+//@   ensures written-once: result == nil ==> ghost.dexecs == old(ghost.dexecs) + 1
+//@   ensures at-most-once: ghost.dexecs <= old(ghost.dexecs) + 1
+
+//@ func (*BaseUndoLogManager).FlushUndoLog
+//@   prop C02
+//@   requires tranCtx != nil && tranCtx.RoundImages != nil && conn != nil && !ghost.dstep_failed
+//@   modifies ghost.dstep_failed, ghost.dexecs
+//@   ensures failure-surfaces: ghost.dstep_failed ==> result != nil
+//@   ensures nothing-to-write: len(tranCtx.RoundImages.before) == 0 && len(tranCtx.RoundImages.after) == 0 ==> result == nil && ghost.dexecs == old(ghost.dexecs)
+//@   ensures written-or-skipped: result == nil ==> ghost.dexecs == old(ghost.dexecs) || (ghost.dexecs == old(ghost.dexecs) + 1 && called("InsertUndoLog#1"))
+//@   at call InsertUndoLog#1: assert log-of-this-branch: arg_record.BranchID == tranCtx.BranchID && arg_record.XID == tranCtx.XID && arg_record.LogStatus == undo.UndoLogStatueNormnal && arg_conn == conn
+//@   at call serializeBranchUndoLog#1: assert serializes-this-branch: arg_log.Xid == tranCtx.XID && arg_log.BranchID == tranCtx.BranchID
+
+// the parser cache is a lazily initialised process-wide singleton (sync.Once); abstract here
+//@ ext seata.apache.org/seata-go/pkg/datasource/sql/undo/parser.GetCache
+//@   ensures result != nil
